@@ -390,8 +390,29 @@ class C06(Prop):
         rng = ctx.rng
         while True:
             src = clean(gen.any_source(rng, ctx.repo))
-            if rng.random() < 0.35:
+            k = rng.random()
+            if k < 0.05:
+                # span-rendered macro parameters at safe mode 0 (open finding F23 lives here)
+                uses = ['x {q|*a* _b_} y', '{q|`c` **d**}', '- {q|[t](http://u.v/)} *e*', 'w {q2|_a_|*b*} z', '*{q|a b}*']
+                lines = strip_lt(src).split('\n\n')
+                for _ in range(rng.randint(1, 2)):
+                    lines.insert(rng.randrange(len(lines) + 1), rng.choice(uses))
+                yield {'steps': [{'src': "{q} = '$$1'\n{q2} = '$$2 and $1'\n\n" + '\n\n'.join(lines), 'safeMode': 0, 'reset': True,
+                                  'callback': True}]}
+            elif k < 0.35:
                 yield {'steps': [{'src': strip_lt(src), 'safeMode': 0, 'reset': True, 'callback': True}]}
+            elif k < 0.5:
+                # macro definitions allowed and HTML filtered: values holding unpaired tags, invoked wherever macros expand
+                defs = ["{open} = '<b>bold'", "{close} = 'text</i>'", "{pair} = '<u>x</u>'", "{blk} = '<div>'", "{par} = '<b>$1'"]
+                uses = ['<div>{open}</div>', '<div>\n{close}\n</div>', 'x {open} y {close}', '- item {open}\n<div>{open}</div>\n\n- two',
+                        '""\n<section>{open} and {close}</section>\n""', '{blk}', '{blk}\ninner\n</div>', '# {open}', 't:: {close}\n<p>{par|q}</p>',
+                        '<!-- {open} -->', '..\n<div>{pair}{open}</div>\n..', '.cls\n<div>{open}</div>', '*{open}*', '<span>{par|*a*}']
+                lines = src.split('\n\n')
+                for _ in range(rng.randint(1, 3)):
+                    lines.insert(rng.randrange(len(lines) + 1), rng.choice(uses))
+                yield {'steps': [{'src': '\n'.join(rng.sample(defs, rng.randint(2, 5))) + '\n\n' + '\n\n'.join(lines),
+                                  'safeMode': rng.choice([9, 10, 11, 13, 14, 15]), 'reset': True, 'callback': True,
+                                  'htmlReplacement': rng.choice([None, '[R]'])}]}
             else:
                 yield {'steps': [{'src': src, 'safeMode': rng.choice(NONZERO_POLICY_MODES), 'reset': True, 'callback': True,
                                   'htmlReplacement': rng.choice([None, '[R]'])}]}
